@@ -508,6 +508,342 @@ pub fn root_header_variant_seeds(rng: &mut Rng) -> Vec<Seed> {
     out
 }
 
+// ------------------------------------------------------------------------------------------------ encoding builder programs
+
+pub type CkRec = ([u8; 16], u64, Vec<[u8; 16]>);
+pub type EkRec = ([u8; 16], Option<String>, u64);
+
+/// Which entries the CKey table of a program holds (a CKey entry serialises to 22 + 16 x keys bytes).
+#[derive(Clone, Copy, Debug)]
+pub enum CkShape {
+    /// one encoding key per content key (38 bytes)
+    Singles,
+    /// two encoding keys per content key (54 bytes)
+    Doubles,
+    /// both kinds, in the proportion that fills a page best (to the last byte whenever 38a + 54b = page size has a solution)
+    Mixed,
+}
+
+/// An `EncodingBuilder` program: page sizes, the literal entries handed over, the value the builder returned.
+pub struct EncodingProgram {
+    pub label: String,
+    pub page_kb: (u16, u16),
+    pub trailing: Option<String>,
+    pub ckeys: Vec<CkRec>,
+    pub ekeys: Vec<EkRec>,
+    pub value: Result<cascette_formats::encoding::EncodingFile, String>,
+}
+
+/// Key counts (1 / 2) of the CKey entries that fill `pages` pages of `page` bytes as far as they go, `delta` entries
+/// more (+1: one entry on a further page) or fewer (-1: the last page lacks its last entry).
+fn ckey_fill(rng: &mut Rng, shape: CkShape, page: usize, pages: usize, delta: i32) -> Vec<usize> {
+    let (a, b) = match shape {
+        CkShape::Singles => (page / 38, 0),
+        CkShape::Doubles => (0, page / 54),
+        CkShape::Mixed => {
+            // least unused tail, at least one entry of each kind when the page has room for both
+            let mut best = (page / 38, 0usize, page % 38 + 1000);
+            for b in 1..=page / 54 {
+                let a = (page - 54 * b) / 38;
+                let rest = page - 54 * b - 38 * a + if a == 0 { 1000 } else { 0 };
+                if rest < best.2 {
+                    best = (a, b, rest);
+                }
+            }
+            (best.0, best.1)
+        }
+    };
+    let mut out = Vec::new();
+    for _ in 0..pages {
+        let mut p: Vec<usize> = std::iter::repeat_n(1, a).chain(std::iter::repeat_n(2, b)).collect();
+        rng.shuffle(&mut p);
+        out.extend(p);
+    }
+    if delta < 0 {
+        out.pop();
+    } else if delta > 0 {
+        out.push(1);
+    }
+    if out.is_empty() {
+        out.push(1);
+    }
+    out
+}
+
+/// The i-th key of a table: ascending in i (the builder sorts by key, so the order of emission is the order in the
+/// pages), never all-zero.
+fn ordered_key(rng: &mut Rng, i: usize) -> [u8; 16] {
+    let mut k = rng.array::<16>();
+    k[..4].copy_from_slice(&(i as u32 + 1).to_be_bytes());
+    k
+}
+
+#[allow(clippy::too_many_arguments)]
+pub fn encoding_program(rng: &mut Rng, ckey_kb: u16, shape: CkShape, ck_pages: usize, ck_delta: i32, ekey_kb: u16, ek_pages: usize, ek_delta: i32, trailing: bool) -> EncodingProgram {
+    use cascette_crypto::EncodingKey;
+    use cascette_formats::encoding::{CKeyEntryData, EKeyEntryData, EncodingBuilder};
+    const SPECS: [&str; 3] = ["z", "n", "b:{256K*=z}"];
+    let trailing = trailing.then(|| "b:{22=n,*=z}".to_string());
+    let mut b = EncodingBuilder::new().with_page_sizes(ckey_kb, ekey_kb);
+    if let Some(t) = &trailing {
+        b = b.with_trailing_espec(t.clone());
+    }
+    let mut ckeys: Vec<CkRec> = Vec::new();
+    for (i, keys) in ckey_fill(rng, shape, ckey_kb as usize * 1024, ck_pages, ck_delta).into_iter().enumerate() {
+        let rec: CkRec = (ordered_key(rng, i), rng.below(1 << 40), (0..keys).map(|_| rng.array::<16>()).collect());
+        b.add_ckey_entry(CKeyEntryData { content_key: ContentKey::from_bytes(rec.0), file_size: rec.1, encoding_keys: rec.2.iter().map(|k| EncodingKey::from_bytes(*k)).collect() });
+        ckeys.push(rec);
+    }
+    // an EKey entry is 16 + 4 + 5 bytes
+    let n_ekeys = ((ekey_kb as usize * 1024 / 25 * ek_pages) as i64 + i64::from(ek_delta)).max(1) as usize;
+    let mut ekeys: Vec<EkRec> = Vec::new();
+    for i in 0..n_ekeys {
+        let rec: EkRec = (ordered_key(rng, i), Some(SPECS[i % SPECS.len()].to_string()), rng.below(1 << 40));
+        b.add_ekey_entry(EKeyEntryData { encoding_key: EncodingKey::from_bytes(rec.0), espec: SPECS[i % SPECS.len()].to_string(), file_size: rec.2 });
+        ekeys.push(rec);
+    }
+    ckeys.sort();
+    ekeys.sort();
+    let label = format!("encoding ckey-pages={ckey_kb}K {shape:?} x{ck_pages}{ck_delta:+} (n={}) ekey-pages={ekey_kb}K x{ek_pages}{ek_delta:+} (n={}) trailing={}", ckeys.len(), ekeys.len(), trailing.is_some());
+    EncodingProgram { label, page_kb: (ckey_kb, ekey_kb), trailing, ckeys, ekeys, value: b.build().map_err(|e| format!("{e:?}")) }
+}
+
+/// Page sizes other than the default on both tables — among them sizes that are multiples of an entry size (19 KiB =
+/// 512 x 38, 27 KiB = 512 x 54, 25 / 50 KiB = 1024 / 2048 x 25), where a page can be full to the last byte, and 1 KiB —
+/// each with entry counts that fill one and two pages exactly, one entry less and one more; plus `random` programs.
+pub fn encoding_programs(rng: &mut Rng, random: usize) -> Vec<EncodingProgram> {
+    let mut ck = Vec::new();
+    for (kb, shape) in [(1u16, CkShape::Mixed), (2, CkShape::Mixed), (4, CkShape::Mixed), (4, CkShape::Singles), (19, CkShape::Singles), (27, CkShape::Doubles)] {
+        for pages in [1usize, 2] {
+            for delta in [-1i32, 0, 1] {
+                ck.push((kb, shape, pages, delta));
+            }
+        }
+    }
+    let mut ek = Vec::new();
+    for kb in [1u16, 2, 3, 4, 25, 50] {
+        for pages in [1usize, 2] {
+            for delta in [-1i32, 0, 1] {
+                ek.push((kb, pages, delta));
+            }
+        }
+    }
+    let mut out = Vec::new();
+    for (i, c) in ck.iter().enumerate() {
+        // (the two lists have the same inner structure: pair them through a permutation)
+        let e = ek[(i * 5 + 3) % ek.len()];
+        out.push(encoding_program(rng, c.0, c.1, c.2, c.3, e.0, e.1, e.2, i % 2 == 0));
+    }
+    for _ in 0..random {
+        let shape = *rng.pick(&[CkShape::Singles, CkShape::Doubles, CkShape::Mixed]);
+        let (ckb, ekb) = (rng.urange(1, 32) as u16, rng.urange(1, 32) as u16);
+        let (cp, cd, ep, ed, tr) = (rng.urange(1, 3), rng.urange(0, 2) as i32 - 1, rng.urange(1, 3), rng.urange(0, 2) as i32 - 1, rng.bool());
+        out.push(encoding_program(rng, ckb, shape, cp, cd, ekb, ep, ed, tr));
+    }
+    out
+}
+
+/// Entries of an encoding table through its public fields (ESpec index resolved through the table), sorted.
+pub fn encoding_content(f: &cascette_formats::encoding::EncodingFile) -> (Vec<CkRec>, Vec<EkRec>) {
+    let mut ck: Vec<CkRec> = f.ckey_pages.iter().flat_map(|p| p.entries.iter().map(|e| (*e.content_key.as_bytes(), e.file_size, e.encoding_keys.iter().map(|k| *k.as_bytes()).collect::<Vec<_>>()))).collect();
+    let mut ek: Vec<EkRec> = f.ekey_pages.iter().flat_map(|p| p.entries.iter().map(|e| (*e.encoding_key.as_bytes(), f.espec_table.entries.get(e.espec_index as usize).cloned(), e.file_size))).collect();
+    ck.sort();
+    ek.sort();
+    (ck, ek)
+}
+
+// ------------------------------------------------------------------------------------------------ TVFS builder programs
+
+/// (path, ekey, encoded size, content size, content key, EST index)
+pub type TvfsRec = (String, [u8; 9], u32, u32, [u8; 16], Option<u32>);
+/// (path, spans: (file offset, length, container entry: (ekey, encoded size, content key, EST index)))
+pub type TvfsFileContent = (String, Vec<(u32, u32, Option<(Vec<u8>, u32, Option<Vec<u8>>, Option<u32>)>)>);
+
+pub struct TvfsProgram {
+    pub label: String,
+    pub flags: u32,
+    pub specs: Vec<String>,
+    pub files: Vec<TvfsRec>,
+    pub bytes: Result<Vec<u8>, String>,
+}
+
+/// A path table stores one path component as length-prefixed name fragments; the length byte 0xFF is the node marker.
+pub const TVFS_MAX_FRAGMENT: usize = 254;
+
+const CHARS_BY_WIDTH: [[char; 3]; 4] = [['a', 'Q', '7'], ['é', 'ß', 'д'], ['데', '日', '€'], ['😀', '𝔘', '𐍈']];
+
+/// One path component of exactly `len` bytes: `lead` ASCII bytes, then characters of `width` UTF-8 bytes for as long
+/// as they fit, then ASCII filler.
+pub fn tvfs_component(width: usize, lead: usize, len: usize) -> String {
+    let chars = CHARS_BY_WIDTH[width - 1];
+    let mut s = "x".repeat(lead.min(len));
+    let mut i = 0;
+    while s.len() + width <= len {
+        s.push(chars[i % 3]);
+        i += 1;
+    }
+    while s.len() < len {
+        s.push('y');
+    }
+    s
+}
+
+pub fn tvfs_program(rng: &mut Rng, label: String, flags: u32, paths: Vec<String>) -> TvfsProgram {
+    use cascette_formats::tvfs::{TVFS_FLAG_ENCODING_SPEC, TvfsBuilder};
+    let with_est = flags & TVFS_FLAG_ENCODING_SPEC != 0;
+    let specs: Vec<String> = if with_est { vec!["z".into(), "b:{256K*=z}".into(), "n".into()] } else { Vec::new() };
+    let mut b = TvfsBuilder::with_flags(flags);
+    for s in &specs {
+        b.add_est_spec(s.clone());
+    }
+    let mut files: Vec<TvfsRec> = Vec::new();
+    for (i, p) in paths.into_iter().enumerate() {
+        let rec: TvfsRec = (p, rng.array::<9>(), rng.next_u32(), rng.next_u32(), rng.array::<16>(), with_est.then_some((i % specs.len().max(1)) as u32));
+        match rec.5 {
+            Some(est) => b.add_file_with_est(rec.0.clone(), rec.1, rec.2, rec.3, Some(rec.4), est),
+            None => b.add_file(rec.0.clone(), rec.1, rec.2, rec.3, Some(rec.4)),
+        }
+        files.push(rec);
+    }
+    files.sort();
+    TvfsProgram { label, flags, specs, files, bytes: b.build().map_err(|e| format!("{e:?}")) }
+}
+
+/// Paths of `n` files in a random tree: components of 1..12 bytes, one in five long (up to three fragments), made of
+/// characters of every UTF-8 width; no path is a directory of another one.
+pub fn tvfs_random_paths(rng: &mut Rng, n: usize) -> Vec<String> {
+    let mut files: std::collections::BTreeSet<String> = std::collections::BTreeSet::new();
+    let mut dirs: std::collections::BTreeSet<String> = std::collections::BTreeSet::new();
+    let component = |rng: &mut Rng| -> String {
+        let len = if rng.chance(1, 5) { rng.urange(TVFS_MAX_FRAGMENT - 6, 3 * TVFS_MAX_FRAGMENT + 6) } else { rng.urange(1, 12) };
+        let mut s = String::new();
+        while s.len() < len {
+            let w = rng.urange(1, 4);
+            if s.len() + w <= len {
+                s.push(CHARS_BY_WIDTH[w - 1][rng.usize_below(3)]);
+            }
+        }
+        s
+    };
+    let mut attempts = 0;
+    while files.len() < n && attempts < 20 * n + 20 {
+        attempts += 1;
+        // a new file below an existing directory (shared prefixes) or below a new chain of directories
+        let mut parent = if !dirs.is_empty() && rng.chance(2, 3) { dirs.iter().nth(rng.usize_below(dirs.len())).cloned().unwrap_or_default() } else { String::new() };
+        for _ in 0..rng.urange(0, 2) {
+            let c = component(rng);
+            parent = if parent.is_empty() { c } else { format!("{parent}/{c}") };
+        }
+        let c = component(rng);
+        let path = if parent.is_empty() { c } else { format!("{parent}/{c}") };
+        // every proper prefix becomes a directory: none of them may be a file, and the new file may not be a directory
+        let prefixes: Vec<String> = path.match_indices('/').map(|(i, _)| path[..i].to_string()).collect();
+        if files.contains(&path) || dirs.contains(&path) || prefixes.iter().any(|p| files.contains(p)) {
+            continue;
+        }
+        dirs.extend(prefixes);
+        files.insert(path);
+    }
+    files.into_iter().collect()
+}
+
+/// Builder programs for TVFS: short paths (ASCII and not), path components around every multiple of the fragment
+/// limit made of characters of each UTF-8 width at every alignment (as file names and as directory names), random trees.
+pub fn tvfs_programs(rng: &mut Rng, random: usize) -> Vec<TvfsProgram> {
+    use cascette_formats::tvfs::{TVFS_FLAG_ENCODING_SPEC, TVFS_FLAG_INCLUDE_CKEY, TVFS_FLAG_PATCH_SUPPORT};
+    let flag_sets = [TVFS_FLAG_INCLUDE_CKEY, 0, TVFS_FLAG_INCLUDE_CKEY | TVFS_FLAG_ENCODING_SPEC, TVFS_FLAG_INCLUDE_CKEY | TVFS_FLAG_PATCH_SUPPORT];
+    let mut out = Vec::new();
+    let short: Vec<String> = ["Interface/Icons/inv_misc_questionmark.blp", "Interface/Icons/inv_misc_bag.blp", "Interface/Glues/Ünïcödé/데이터.txt", "Interface/Glues/Ünïcödé/日本語.txt", "world/maps/azeroth/azeroth.wdt", "world/maps/😀/𝔘.adt", "a", "b/c", "ß"].iter().map(|s| (*s).to_string()).collect();
+    for (i, flags) in flag_sets.iter().enumerate() {
+        out.push(tvfs_program(rng, format!("tvfs short-paths flags={flags}"), *flags, short[..short.len() - i].to_vec()));
+    }
+    let m = TVFS_MAX_FRAGMENT;
+    for width in 1..=4usize {
+        let mut paths = Vec::new();
+        for len in [m - 1, m, m + 1, m + 2, m + 4, m + 46, 2 * m - 1, 2 * m, 2 * m + 1, 2 * m + 4, 3 * m + 1, 3 * m + 38] {
+            for lead in 0..width {
+                paths.push(format!("w{width}/{}", tvfs_component(width, lead, len)));
+            }
+        }
+        // the same as directory names, two files below each
+        for len in [m + 1, m + 46, 2 * m + 1] {
+            for lead in 0..width {
+                let d = tvfs_component(width, lead, len);
+                paths.push(format!("w{width}d/{d}/leaf.bin"));
+                paths.push(format!("w{width}d/{d}/{}", tvfs_component(width, lead, m + 3)));
+            }
+        }
+        out.push(tvfs_program(rng, format!("tvfs component-lengths-around-the-fragment-limit char-width={width}"), flag_sets[width - 1], paths));
+    }
+    for r in 0..random {
+        let n = rng.urange(1, 40);
+        let paths = tvfs_random_paths(rng, n);
+        out.push(tvfs_program(rng, format!("tvfs random-tree #{r} files={}", paths.len()), flag_sets[r % 4], paths));
+    }
+    out
+}
+
+/// Logical content of a parsed TVFS manifest through its public fields: per file of the path table its spans and the
+/// container entries they address; the paths found by walking the tree; the EST strings.
+pub fn tvfs_content(t: &cascette_formats::tvfs::TvfsFile) -> (Vec<TvfsFileContent>, Vec<String>, Option<Vec<String>>) {
+    use cascette_formats::tvfs::PathTreeNode;
+    let mut files: Vec<TvfsFileContent> = t
+        .path_table
+        .files
+        .iter()
+        .map(|f| {
+            let spans = t.vfs_table.entries.iter().find(|e| e.offset == f.vfs_offset).map(|e| e.spans.as_slice()).unwrap_or(&[]);
+            (f.path.clone(), spans.iter().map(|s| (s.file_offset, s.span_length, t.container_table.entries.iter().find(|c| c.offset == s.cft_offset).map(|c| (c.ekey.clone(), c.encoded_size, c.content_key.clone(), c.est_index)))).collect())
+        })
+        .collect();
+    files.sort();
+    fn walk(node: &PathTreeNode, prefix: &str, out: &mut Vec<String>) {
+        for c in &node.children {
+            let p = if prefix.is_empty() {
+                c.name.clone()
+            } else if c.name.is_empty() {
+                prefix.to_string()
+            } else {
+                format!("{prefix}/{}", c.name)
+            };
+            if c.vfs_offset.is_some() {
+                out.push(p.clone());
+            }
+            walk(c, &p, out);
+        }
+    }
+    let mut tree = Vec::new();
+    walk(&t.path_table.root, "", &mut tree);
+    tree.sort();
+    (files, tree, t.est_table.as_ref().map(|e| e.specs.clone()))
+}
+
+/// First component in which the parsed serialisation of a TVFS builder program differs from what the builder was given.
+pub fn tvfs_program_diff(p: &TvfsProgram, t: &cascette_formats::tvfs::TvfsFile) -> Option<&'static str> {
+    use cascette_formats::tvfs::TVFS_FLAG_INCLUDE_CKEY;
+    let (files, tree, specs) = tvfs_content(t);
+    let paths: Vec<&String> = p.files.iter().map(|f| &f.0).collect();
+    if files.iter().map(|f| &f.0).collect::<Vec<_>>() != paths {
+        return Some("paths");
+    }
+    // a content key is stored with the manifest's key size
+    let ck = |k: &[u8; 16]| (p.flags & TVFS_FLAG_INCLUDE_CKEY != 0).then(|| k[..(t.header.pkey_size as usize).min(16)].to_vec());
+    let model: Vec<TvfsFileContent> = p.files.iter().map(|f| (f.0.clone(), vec![(0, f.3, Some((f.1.to_vec(), f.2, ck(&f.4), f.5)))])).collect();
+    if files != model {
+        return Some("file-records");
+    }
+    if tree.iter().collect::<Vec<_>>() != paths {
+        return Some("tree-paths");
+    }
+    if specs.unwrap_or_default() != p.specs {
+        return Some("est_specs");
+    }
+    if p.files.iter().any(|f| t.resolve_path(&f.0).is_none_or(|c| c.ekey != f.1)) {
+        return Some("resolve_path");
+    }
+    None
+}
+
 /// Seeds (for the mutators) made from the new values: format variants the original corpus did not contain.
 pub fn extension_seeds(seed: u64) -> Vec<Seed> {
     let mut rng = Rng::derive(seed, 0xC08_E57);
@@ -562,6 +898,19 @@ pub fn extension_seeds(seed: u64) -> Vec<Seed> {
         push("BpsvDocument", format!("bpsv-{name}"), CascFormat::build(&d).ok());
     }
     v.extend(root_header_variant_seeds(&mut rng));
+    // (own stream: the seeds above keep the bytes they had before these were added)
+    let mut rng2 = Rng::derive(seed, 0xC08_E58);
+    let mut push2 = |format: &'static str, name: String, bytes: Option<Vec<u8>>| {
+        if let Some(bytes) = bytes {
+            v.push(Seed { format, name: format!("builder/{name}"), bytes, fixture: false });
+        }
+    };
+    // path components that need two and three name fragments (file and directory names, 3-byte characters)
+    let m = TVFS_MAX_FRAGMENT;
+    let long_paths = vec![format!("loc/{}", tvfs_component(3, 1, m + 7)), format!("loc/{}/leaf.bin", tvfs_component(3, 0, 2 * m + 9)), format!("loc/{}/{}", tvfs_component(3, 0, 2 * m + 9), tvfs_component(1, 0, m)), "loc/short.txt".to_string()];
+    push2("TvfsFile", "tvfs-multi-fragment-names".to_string(), tvfs_program(&mut rng2, String::new(), cascette_formats::tvfs::TVFS_FLAG_INCLUDE_CKEY, long_paths).bytes.ok());
+    // 1 KiB pages on both tables, the CKey pages full to the last byte (two of them)
+    push2("EncodingFile", "encoding-1K-pages-ckey-pages-exactly-full".to_string(), encoding_program(&mut rng2, 1, CkShape::Mixed, 2, 0, 1, 2, 0, true).value.ok().and_then(|f| f.build().ok()));
     v
 }
 
@@ -709,6 +1058,82 @@ pub fn run(ctx: &Ctx) {
         };
         if let Some(class) = class {
             crate::report(ctx, &format!("C08|ArchiveIndex|builder-value-changed|default-layout-api:{class}"), "builder-value-changed", json!({"format": "ArchiveIndex", "builder_value": label, "entries": model.len()}));
+        }
+    }
+    // (own streams: the programs above keep the values they had before these were added)
+    let mut rng_e = ctx.rng(0xB01D_3);
+    for p in encoding_programs(&mut rng_e, ctx.pick(4usize, 60)) {
+        ctx.eval_nontrivial(vh::mix64(vh::fnv64(b"builder-program"), vh::fnv64(p.label.as_bytes())));
+        ctx.obs("builder_programs.EncodingFile", 1);
+        let value = match &p.value {
+            Ok(v) => v,
+            Err(e) => {
+                crate::report(ctx, &format!("C08|EncodingFile|builder-value-changed|model:build-fails:{}", crate::err_class(e)), "builder-value-changed", json!({"format": "EncodingFile", "builder_value": p.label, "error": e}));
+                continue;
+            }
+        };
+        // how full the pages of this value are (what the run reached, for the evidence)
+        for (table, used, size) in [("ckey", value.ckey_pages.iter().map(|pg| pg.entries.iter().map(|e| 22 + 16 * e.encoding_keys.len()).sum::<usize>()).collect::<Vec<_>>(), value.header.ckey_page_size()), ("ekey", value.ekey_pages.iter().map(|pg| pg.entries.len() * 25).collect::<Vec<_>>(), value.header.ekey_page_size())] {
+            for u in used {
+                ctx.obs(&format!("builder_programs.EncodingFile.{table}_page.{}", if u == size { "full-to-the-last-byte" } else if u + 54 > size { "no-room-for-another-entry" } else { "partly-filled" }), 1);
+            }
+        }
+        // the value as the builder returned it against its own serialisation …
+        crate::check_value_keys(ctx, &p.label, value, &[]);
+        // … and the parsed serialisation against the literals handed to the builder
+        let r = std::panic::catch_unwind(std::panic::AssertUnwindSafe(|| -> Option<String> {
+            let bytes = match value.build() {
+                Ok(b) => b,
+                Err(e) => return Some(format!("serialise-fails:{}", crate::err_class(&format!("{e:?}")))),
+            };
+            let parsed = match cascette_formats::encoding::EncodingFile::parse(&bytes) {
+                Ok(f) => f,
+                Err(e) => return Some(format!("parse-fails:{}", crate::err_class(&format!("{e:?}")))),
+            };
+            let (ck, ek) = encoding_content(&parsed);
+            if (parsed.header.ckey_page_size_kb, parsed.header.ekey_page_size_kb) != p.page_kb {
+                Some("page_sizes".to_string())
+            } else if ck != p.ckeys {
+                Some("ckey_entries".to_string())
+            } else if ek != p.ekeys {
+                Some("ekey_entries".to_string())
+            } else if parsed.trailing_espec != p.trailing {
+                Some("trailing_espec".to_string())
+            } else {
+                None
+            }
+        }));
+        let class = match r {
+            Ok(c) => c,
+            Err(_) => Some(format!("panic:{}", crate::take_panic())),
+        };
+        if let Some(class) = class {
+            crate::report(ctx, &format!("C08|EncodingFile|builder-value-changed|model:{class}"), "builder-value-changed", json!({"format": "EncodingFile", "builder_value": p.label, "ckey_entries": p.ckeys.len(), "ekey_entries": p.ekeys.len()}));
+        }
+    }
+    let mut rng_t = ctx.rng(0xB01D_4);
+    for p in tvfs_programs(&mut rng_t, ctx.pick(8usize, 150)) {
+        ctx.eval_nontrivial(vh::mix64(vh::fnv64(b"builder-program"), vh::fnv64(p.label.as_bytes())));
+        ctx.obs("builder_programs.TvfsFile", 1);
+        for f in &p.files {
+            for c in f.0.split('/') {
+                let frags = c.len().div_ceil(TVFS_MAX_FRAGMENT);
+                ctx.obs(&format!("builder_programs.TvfsFile.component.{}-fragment{}", frags.min(4), if frags >= 4 { "s-or-more" } else { "" }), 1);
+                if (1..frags).any(|k| !c.is_char_boundary(k * TVFS_MAX_FRAGMENT)) {
+                    ctx.obs("builder_programs.TvfsFile.component.character-across-a-fragment-boundary", 1);
+                }
+            }
+        }
+        let class = match &p.bytes {
+            Err(e) => Some(format!("build-fails:{}", crate::err_class(e))),
+            Ok(bytes) => match std::panic::catch_unwind(std::panic::AssertUnwindSafe(|| cascette_formats::tvfs::TvfsFile::parse(bytes).map(|t| tvfs_program_diff(&p, &t).map(str::to_string)).map_err(|e| crate::err_class(&format!("{e:?}"))))) {
+                Err(_) => Some(format!("panic:{}", crate::take_panic())),
+                Ok(Err(e)) => Some(format!("parse-fails:{e}")),
+                Ok(Ok(diff)) => diff,
+            },
+        };
+        if let Some(class) = class {
+            crate::report(ctx, &format!("C08|TvfsFile|builder-value-changed|{class}"), "builder-value-changed", json!({"format": "TvfsFile", "builder_value": p.label, "files": p.files.len(), "flags": p.flags, "longest_component_bytes": p.files.iter().flat_map(|f| f.0.split('/')).map(str::len).max()}));
         }
     }
     for p in root_programs(&mut rng) {
